@@ -2,6 +2,7 @@ package main
 
 import (
 	"fmt"
+	"go/token"
 	"go/types"
 
 	"golang.org/x/tools/go/ssa"
@@ -180,7 +181,67 @@ func sameOptions(arg, own ssa.Value) bool {
 		return true
 	}
 	root, sel := accessPath(a)
-	return root == own && len(sel) == 0
+	if root == own && len(sel) == 0 {
+		return true
+	}
+	// a load of the cell a parameter was spilled to because a closure
+	// captures it: every store into that cell, in the function and all its
+	// closures, stores own
+	u, ok := a.(*ssa.UnOp)
+	if !ok || u.Op != token.MUL {
+		return false
+	}
+	cell := closureCell(u.X)
+	alloc, ok := cell.(*ssa.Alloc)
+	if !ok {
+		return false
+	}
+	top := alloc.Parent()
+	n, good := 0, true
+	withClosures(top, func(f *ssa.Function) {
+		allInstrs(f, func(in ssa.Instruction) {
+			if st, ok := in.(*ssa.Store); ok && closureCell(st.Addr) == ssa.Value(alloc) {
+				n++
+				if strip(st.Val) != own {
+					good = false
+				}
+			}
+		})
+	})
+	return n >= 1 && good
+}
+
+// closureCell resolves a free variable to the value bound to it where the
+// closure is made (repeatedly, for nested closures).
+func closureCell(v ssa.Value) ssa.Value {
+	for depth := 0; depth < 6; depth++ {
+		fv, ok := v.(*ssa.FreeVar)
+		if !ok {
+			return v
+		}
+		fn := fv.Parent()
+		idx := -1
+		for i, f := range fn.FreeVars {
+			if f == fv {
+				idx = i
+			}
+		}
+		parent := fn.Parent()
+		if parent == nil || idx < 0 {
+			return v
+		}
+		var bound ssa.Value
+		allInstrs(parent, func(in ssa.Instruction) {
+			if mc, ok := in.(*ssa.MakeClosure); ok && mc.Fn == ssa.Value(fn) && idx < len(mc.Bindings) {
+				bound = mc.Bindings[idx]
+			}
+		})
+		if bound == nil {
+			return v
+		}
+		v = bound
+	}
+	return v
 }
 
 func usedValue(v ssa.Value) bool {
